@@ -1,7 +1,19 @@
 
+(** val negb : bool -> bool **)
+
+let negb = function
+| true -> false
+| false -> true
+
 type nat =
 | O
 | S of nat
+
+(** val option_map : ('a1 -> 'a2) -> 'a1 option -> 'a2 option **)
+
+let option_map f = function
+| Some a -> Some (f a)
+| None -> None
 
 (** val fst : ('a1 * 'a2) -> 'a1 **)
 
@@ -38,6 +50,12 @@ let compOpp = function
 | Lt -> Gt
 | Gt -> Lt
 
+(** val pred : nat -> nat **)
+
+let pred n0 = match n0 with
+| O -> n0
+| S u -> u
+
 module Coq__1 = struct
  (** val add : nat -> nat -> nat **)
  let rec add n0 m =
@@ -46,6 +64,22 @@ module Coq__1 = struct
    | S p -> S (add p m)
 end
 include Coq__1
+
+(** val mul : nat -> nat -> nat **)
+
+let rec mul n0 m =
+  match n0 with
+  | O -> O
+  | S p -> add m (mul p m)
+
+(** val sub : nat -> nat -> nat **)
+
+let rec sub n0 m =
+  match n0 with
+  | O -> n0
+  | S k -> (match m with
+            | O -> n0
+            | S l -> sub k l)
 
 type positive =
 | XI of positive
@@ -60,6 +94,43 @@ type z =
 | Z0
 | Zpos of positive
 | Zneg of positive
+
+module Nat =
+ struct
+  (** val eqb : nat -> nat -> bool **)
+
+  let rec eqb n0 m =
+    match n0 with
+    | O -> (match m with
+            | O -> true
+            | S _ -> false)
+    | S n' -> (match m with
+               | O -> false
+               | S m' -> eqb n' m')
+
+  (** val leb : nat -> nat -> bool **)
+
+  let rec leb n0 m =
+    match n0 with
+    | O -> true
+    | S n' -> (match m with
+               | O -> false
+               | S m' -> leb n' m')
+
+  (** val ltb : nat -> nat -> bool **)
+
+  let ltb n0 m =
+    leb (S n0) m
+
+  (** val min : nat -> nat -> nat **)
+
+  let rec min n0 m =
+    match n0 with
+    | O -> O
+    | S n' -> (match m with
+               | O -> O
+               | S m' -> S (min n' m'))
+ end
 
 module Pos =
  struct
@@ -497,6 +568,20 @@ module Z =
     | Lt -> true
     | _ -> false
 
+  (** val eqb : z -> z -> bool **)
+
+  let eqb x y =
+    match x with
+    | Z0 -> (match y with
+             | Z0 -> true
+             | _ -> false)
+    | Zpos p -> (match y with
+                 | Zpos q -> Coq_Pos.eqb p q
+                 | _ -> false)
+    | Zneg p -> (match y with
+                 | Zneg q -> Coq_Pos.eqb p q
+                 | _ -> false)
+
   (** val to_nat : z -> nat **)
 
   let to_nat = function
@@ -592,7 +677,43 @@ let rec forallb f = function
 | [] -> true
 | a :: l0 -> (&&) (f a) (forallb f l0)
 
+(** val firstn : nat -> 'a1 list -> 'a1 list **)
+
+let rec firstn n0 l =
+  match n0 with
+  | O -> []
+  | S n1 -> (match l with
+             | [] -> []
+             | a :: l0 -> a :: (firstn n1 l0))
+
+(** val skipn : nat -> 'a1 list -> 'a1 list **)
+
+let rec skipn n0 l =
+  match n0 with
+  | O -> l
+  | S n1 -> (match l with
+             | [] -> []
+             | _ :: l0 -> skipn n1 l0)
+
+(** val repeat : 'a1 -> nat -> 'a1 list **)
+
+let rec repeat x = function
+| O -> []
+| S k -> x :: (repeat x k)
+
 type byte = n
+
+(** val list_eqb : n list -> n list -> bool **)
+
+let rec list_eqb a b =
+  match a with
+  | [] -> (match b with
+           | [] -> true
+           | _ :: _ -> false)
+  | x :: a' ->
+    (match b with
+     | [] -> false
+     | y :: b' -> (&&) (N.eqb x y) (list_eqb a' b'))
 
 (** val escape_leader : n **)
 
@@ -624,6 +745,21 @@ let escape_all_chars =
 
 let escape_all_first_code =
   Npos (XI (XO (XO (XO (XO (XO XH))))))
+
+(** val resume_min_protocol : n **)
+
+let resume_min_protocol =
+  Npos (XI XH)
+
+(** val resume_v3_truncate : bool **)
+
+let resume_v3_truncate =
+  false
+
+(** val resume_v2_truncate : bool **)
+
+let resume_v2_truncate =
+  true
 
 (** val leader : byte **)
 
@@ -843,3 +979,250 @@ let builtin_table escape_all =
   match table_of_json (builtin_json escape_all) with
   | Some t -> t
   | None -> []
+
+type digest = n list
+
+type hmsg =
+| Hash of z * digest
+| Over
+
+type ack = { a_step : z; a_match : bool }
+
+type file = { f_data : byte list; f_off : nat }
+
+(** val f_write : file -> byte list -> file **)
+
+let f_write f d =
+  let c = f.f_data in
+  let o = f.f_off in
+  { f_data =
+  (app (firstn o c)
+    (app (repeat N0 (sub o (length c))) (app d (skipn (add o (length d)) c))));
+  f_off = (add o (length d)) }
+
+(** val f_seek : file -> nat -> file **)
+
+let f_seek f m =
+  { f_data = f.f_data; f_off = m }
+
+(** val f_truncate : file -> nat -> file **)
+
+let f_truncate f m =
+  { f_data = (app (firstn m f.f_data) (repeat N0 (sub m (length f.f_data))));
+    f_off = f.f_off }
+
+(** val bn : n -> nat **)
+
+let bn =
+  N.to_nat
+
+(** val send_hashes :
+    n -> (byte list -> digest) -> nat -> nat option -> byte list -> nat ->
+    nat -> byte list -> hmsg list option **)
+
+let rec send_hashes b h fuel stops src size step fed =
+  if (&&) (Nat.ltb step size)
+       (negb
+         (match stops with
+          | Some n0 -> (match n0 with
+                        | O -> true
+                        | S _ -> false)
+          | None -> false))
+  then (match fuel with
+        | O -> None
+        | S fuel' ->
+          let m = sub size step in
+          let want = if Nat.ltb m (bn b) then m else bn b in
+          let buf = firstn want (skipn step src) in
+          let step' = add step (length buf) in
+          let fed' = app fed buf in
+          (match send_hashes b h fuel' (option_map pred stops) src size step'
+                   fed' with
+           | Some r -> Some ((Hash ((Z.of_nat step'), (h fed'))) :: r)
+           | None -> None))
+  else Some (Over :: [])
+
+type rstate = { r_match : bool; r_mstep : z; r_fed : byte list; r_off : 
+                nat; r_acks : ack list }
+
+(** val r_init : rstate **)
+
+let r_init =
+  { r_match = true; r_mstep = Z0; r_fed = []; r_off = O; r_acks = [] }
+
+type rout =
+| ROver of rstate
+| RBlocked of rstate
+| RPanic of rstate * z
+| RReadErr of rstate * z
+
+(** val recv_hashes :
+    (byte list -> digest) -> byte list -> hmsg list -> rstate -> rout **)
+
+let rec recv_hashes h dst msgs st =
+  match msgs with
+  | [] -> RBlocked st
+  | h0 :: rest ->
+    (match h0 with
+     | Hash (hstep, h1) ->
+       if negb st.r_match
+       then recv_hashes h dst rest st
+       else let step = Z.sub hstep st.r_mstep in
+            if Z.ltb step Z0
+            then RPanic (st, step)
+            else if Z.leb (Z.add (Z.of_nat st.r_off) step)
+                      (Z.of_nat (length dst))
+                 then let n0 = Z.to_nat step in
+                      let buf = firstn n0 (skipn st.r_off dst) in
+                      let fed' = app st.r_fed buf in
+                      let m = list_eqb h1 (h fed') in
+                      recv_hashes h dst rest { r_match = m; r_mstep =
+                        (if m then hstep else st.r_mstep); r_fed = fed';
+                        r_off = (add st.r_off n0); r_acks =
+                        (app st.r_acks ({ a_step = hstep; a_match =
+                          m } :: [])) }
+                 else RReadErr (st, step)
+     | Over -> ROver st)
+
+type sres =
+| SDone of z
+| SErr of z
+| SBlocked
+
+(** val recv_acks : z -> ack list -> z -> sres **)
+
+let rec recv_acks size acks mstep =
+  match acks with
+  | [] -> SBlocked
+  | a :: rest ->
+    if negb a.a_match
+    then SDone mstep
+    else let mstep0 = a.a_step in
+         if Z.eqb mstep0 size
+         then SDone mstep0
+         else if Z.ltb size mstep0
+              then SErr mstep0
+              else recv_acks size rest mstep0
+
+type outcome = { o_hashes : hmsg list; o_acks : ack list; o_mrecv : z;
+                 o_msend : z; o_sent : byte list; o_final : byte list }
+
+type result =
+| Done of outcome
+| SenderBlocked of hmsg list * ack list
+| SenderErr of z
+| RecvFail of rout
+| OutOfFuel
+
+(** val opened : n -> byte list -> byte list **)
+
+let opened proto dst =
+  let truncate =
+    if N.ltb proto resume_min_protocol
+    then resume_v2_truncate
+    else resume_v3_truncate
+  in
+  if truncate then [] else dst
+
+(** val no_exchange : byte list -> byte list -> result **)
+
+let no_exchange src dst0 =
+  Done { o_hashes = []; o_acks = []; o_mrecv = Z0; o_msend = Z0; o_sent =
+    src; o_final = (f_write { f_data = dst0; f_off = O } src).f_data }
+
+(** val run :
+    n -> (byte list -> digest) -> n -> nat option -> byte list -> byte list
+    -> result **)
+
+let run b h proto stops src dst =
+  let dst0 = opened proto dst in
+  if N.ltb proto resume_min_protocol
+  then no_exchange src dst0
+  else if Nat.eqb (length dst0) O
+       then no_exchange src dst0
+       else let size = Nat.min (length src) (length dst0) in
+            (match send_hashes b h size stops src size O [] with
+             | Some hs ->
+               (match recv_hashes h dst0 hs r_init with
+                | ROver st ->
+                  (match recv_acks (Z.of_nat size) st.r_acks Z0 with
+                   | SDone ms ->
+                     let mr = Z.to_nat st.r_mstep in
+                     let f =
+                       f_truncate
+                         (f_seek { f_data = dst0; f_off = st.r_off } mr) mr
+                     in
+                     let sent = skipn (Z.to_nat ms) src in
+                     Done { o_hashes = hs; o_acks = st.r_acks; o_mrecv =
+                     st.r_mstep; o_msend = ms; o_sent = sent; o_final =
+                     (f_write f sent).f_data }
+                   | SErr m -> SenderErr m
+                   | SBlocked -> SenderBlocked (hs, st.r_acks))
+                | x -> RecvFail x)
+             | None -> OutOfFuel)
+
+(** val block_end : n -> nat -> nat -> nat **)
+
+let block_end b size i =
+  Nat.min (mul i (bn b)) size
+
+(** val good_blocks :
+    n -> (byte list -> digest) -> nat -> byte list -> byte list -> nat -> nat
+    -> nat **)
+
+let rec good_blocks b h fuel src dst size i =
+  match fuel with
+  | O -> O
+  | S fuel' ->
+    if (&&) (Nat.ltb (mul i (bn b)) size)
+         (list_eqb (h (firstn (block_end b size (S i)) src))
+           (h (firstn (block_end b size (S i)) dst)))
+    then S (good_blocks b h fuel' src dst size (S i))
+    else O
+
+(** val agreed :
+    n -> (byte list -> digest) -> byte list -> byte list -> nat **)
+
+let agreed b h src dst =
+  let size = Nat.min (length src) (length dst) in
+  block_end b size (good_blocks b h size src dst size O)
+
+(** val abs_nblocks : n -> n -> n **)
+
+let abs_nblocks b size =
+  N.div (N.sub (N.add size b) (Npos XH)) b
+
+(** val abs_agreed : n -> n -> n -> n **)
+
+let abs_agreed b size cp =
+  if N.leb size cp then size else N.mul b (N.div cp b)
+
+(** val abs_good : n -> n -> n -> n **)
+
+let abs_good b size cp =
+  if N.leb size cp then abs_nblocks b size else N.div cp b
+
+(** val abs_nacks : n -> n -> n -> n **)
+
+let abs_nacks b size cp =
+  let g = abs_good b size cp in
+  if N.ltb g (abs_nblocks b size) then N.add g (Npos XH) else g
+
+(** val abs_stops_ok : n -> n -> n -> n -> bool **)
+
+let abs_stops_ok b size cp k =
+  let n0 = abs_nblocks b size in
+  let g = abs_good b size cp in
+  if N.ltb g n0
+  then (&&) (N.leb (N.add g (Npos XH)) k) (N.leb k n0)
+  else N.eqb k n0
+
+(** val run_id : n -> n -> nat option -> byte list -> byte list -> result **)
+
+let run_id b =
+  run b (fun l -> l)
+
+(** val agreed_id : n -> byte list -> byte list -> nat **)
+
+let agreed_id b =
+  agreed b (fun l -> l)
